@@ -257,6 +257,9 @@ impl Workload {
             job.read_access
         );
 
+        #[cfg(fontc_verif)]
+        verif_hooks::insert(&job);
+
         self.job_count += 1;
         self.count_pending
             .entry(job.id.discriminant())
@@ -288,6 +291,8 @@ impl Workload {
                 running: false,
             });
         }
+        #[cfg(fontc_verif)]
+        verif_hooks::also_completes(&job.id, &also_completes);
         if !also_completes.is_empty() {
             self.also_completes.insert(job.id.clone(), also_completes);
         }
@@ -297,6 +302,8 @@ impl Workload {
 
     fn complete_one(&mut self, id: AnyWorkId) {
         trace!("complete_one {id:?}");
+        #[cfg(fontc_verif)]
+        verif_hooks::id_event("CompleteOne", &id);
         if self.jobs_pending.remove(&id).is_none() {
             panic!("{id:?} completed but isn't pending!");
         }
@@ -336,6 +343,8 @@ impl Workload {
 
         if !glyph.emit_to_binary {
             trace!("Skipping execution of {be_id:?}; it does not emit to binary");
+            #[cfg(fontc_verif)]
+            verif_hooks::id_event("SkipBe", &be_id);
             for counter in self.counters(&be_id) {
                 counter.fetch_sub(1, Ordering::AcqRel);
             }
@@ -366,6 +375,8 @@ impl Workload {
             "Updating {be_id:?} deps from {:?} to {deps:?}",
             be_job.read_access
         );
+        #[cfg(fontc_verif)]
+        verif_hooks::rewrite(&be_id, &deps);
         be_job.read_access = deps
     }
 
@@ -377,6 +388,8 @@ impl Workload {
         timing: JobTime,
     ) -> Result<(), Error> {
         log::debug!("{success:?} successful");
+        #[cfg(fontc_verif)]
+        verif_hooks::id_event("HandleSuccess", &success);
 
         self.timer.add(timing);
 
@@ -408,6 +421,8 @@ impl Workload {
                 .get_mut(&BeWorkIdentifier::Glyf.into())
                 .expect("Glyf has to be pending");
             glyf_loca_job.read_access = glyf_loca_deps.build().into();
+            #[cfg(fontc_verif)]
+            verif_hooks::rewrite(&glyf_loca_job.id, &glyf_loca_job.read_access);
 
             // Resolve the Access::Unknown for gvar, same race as glyf/loca; see issue #1436
             let mut gvar_deps = AccessBuilder::<AnyWorkId>::new()
@@ -422,6 +437,8 @@ impl Workload {
                 .get_mut(&BeWorkIdentifier::Gvar.into())
                 .expect("Gvar has to be pending");
             gvar_job.read_access = gvar_deps.build().into();
+            #[cfg(fontc_verif)]
+            verif_hooks::rewrite(&gvar_job.id, &gvar_job.read_access);
         }
 
         if let AnyWorkId::Fe(FeWorkIdentifier::KerningLocations) = success {
@@ -444,6 +461,8 @@ impl Workload {
                 .variant(FeWorkIdentifier::KernInstance(NormalizedLocation::default()))
                 .build()
                 .into();
+            #[cfg(fontc_verif)]
+            verif_hooks::rewrite_of(self, &AnyWorkId::Be(BeWorkIdentifier::GatherIrKerning));
         }
 
         if let AnyWorkId::Be(BeWorkIdentifier::GatherIrKerning) = success {
@@ -464,11 +483,15 @@ impl Workload {
                 .variant(FeWorkIdentifier::StaticMetadata)
                 .build()
                 .into();
+            #[cfg(fontc_verif)]
+            verif_hooks::rewrite_of(self, &AnyWorkId::Be(BeWorkIdentifier::GatherBeKerning));
         }
 
         if let AnyWorkId::Fe(FeWorkIdentifier::Glyph(glyph_name)) = success {
             self.update_be_glyph_work(fe_root, glyph_name);
         }
+        #[cfg(fontc_verif)]
+        verif_hooks::event("HandleSuccessEnd", "");
 
         Ok(())
     }
@@ -606,6 +629,8 @@ impl Workload {
 
             while self.success.len() < self.job_count {
                 // Spawn anything that is currently executable (has no unfulfilled dependencies)
+                #[cfg(fontc_verif)]
+                fontdrasil::verif::jitter();
                 self.update_launchable(&mut launchable);
                 if launchable.is_empty() && !self.jobs_pending.values().any(|j| j.running) {
                     if log::log_enabled!(log::Level::Warn) {
@@ -618,6 +643,8 @@ impl Workload {
                             warn!("  blocked: {pending:?}");
                         }
                     }
+                    #[cfg(fontc_verif)]
+                    verif_hooks::event("Unable", &format!("\"n\":{}", self.jobs_pending.len()));
                     return Err(Error::UnableToProceed(self.jobs_pending.len()));
                 }
                 successes.clear();
@@ -638,6 +665,8 @@ impl Workload {
 
                             let job = self.jobs_pending.get_mut(id).unwrap();
                             log::trace!("Start {id:?}");
+                            #[cfg(fontc_verif)]
+                            verif_hooks::launch(id, nth_wave);
                             job.running = true;
 
                             let mut work =
@@ -681,8 +710,12 @@ impl Workload {
                             let timing = timing.run();
                             if abort.load(Ordering::Relaxed) {
                                 log::trace!("Aborting {id:?}");
+                                #[cfg(fontc_verif)]
+                                verif_hooks::id_event("JobAborted", &id);
                                 return;
                             }
+                            #[cfg(fontc_verif)]
+                            verif_hooks::job_start(&id);
                             // # Unwind Safety
                             //
                             // 'unwind safety' does not impact memory safety, but
@@ -699,6 +732,10 @@ impl Workload {
                             // <https://doc.rust-lang.org/nomicon/exception-safety.html#exception-safety>
                             // <https://doc.rust-lang.org/std/panic/trait.UnwindSafe.html>
                             let result = match std::panic::catch_unwind(AssertUnwindSafe(|| {
+                                #[cfg(fontc_verif)]
+                                if let Some(e) = verif_hooks::fault(&id) {
+                                    return Err(e);
+                                }
                                 work.exec(work_context)
                             })) {
                                 Ok(result) => result,
@@ -708,6 +745,8 @@ impl Workload {
                                     Err(Error::Panic(msg))
                                 }
                             };
+                            #[cfg(fontc_verif)]
+                            verif_hooks::job_end(&id, result.is_ok());
                             // Decrement counters immediately so all-of detection checks true
                             // before our success result has passed through the channel
                             // At peak times, such as completion of tons of glyphs, the channel seems
@@ -718,10 +757,14 @@ impl Workload {
                                 }
                             }
                             let timing = timing.complete();
+                            #[cfg(fontc_verif)]
+                            verif_hooks::before_send(&id);
 
                             if let Err(e) = send.send((id.clone(), result, timing)) {
                                 log::error!("Unable to write {id:?} to completion channel: {e}");
                             }
+                            #[cfg(fontc_verif)]
+                            verif_hooks::id_event("Send", &id);
                         })
                     }
                     self.timer.add(timing.complete());
@@ -768,6 +811,8 @@ impl Workload {
         }
 
         // If ^ exited due to error the scope awaited any live tasks; capture their results
+        #[cfg(fontc_verif)]
+        verif_hooks::event("ScopeDone", "");
         self.read_completions(&mut Vec::new(), &recv, RecvType::NonBlocking)?;
 
         if self.error.is_none() {
@@ -790,6 +835,8 @@ impl Workload {
             }
         }
 
+        #[cfg(fontc_verif)]
+        verif_hooks::event("ExecReturn", "\"ok\":true");
         Ok(self.timer)
     }
 
@@ -814,6 +861,8 @@ impl Workload {
             },
         };
         while let Some((completed_id, result, timing)) = opt_complete.take() {
+            #[cfg(fontc_verif)]
+            verif_hooks::recv(&completed_id, result.is_ok());
             if !match result {
                 Ok(..) => {
                     if !self.success.contains(&completed_id) {
@@ -957,5 +1006,157 @@ fn get_panic_message(msg: Box<dyn std::any::Any + Send + 'static>) -> String {
             Some(s) => s.to_owned(),
             None => "Box<dyn Any>".to_owned(),
         },
+    }
+}
+
+#[cfg(fontc_verif)]
+mod verif_hooks {
+    //! Event emission for the scheduler; see `fontdrasil::verif`.
+    use super::{AnyAccess, AnyWork, AnyWorkId, Error, Job, Workload};
+    use fontdrasil::{
+        orchestration::{Access, AccessType, Identifier},
+        verif::{emit, enabled, fault_for, jarr, jitter, jstr, set_current_job},
+    };
+
+    fn ids(id: &AnyWorkId) -> String {
+        format!("{id:?}")
+    }
+
+    fn id_fields(id: &AnyWorkId) -> String {
+        format!(
+            "\"id\":{},\"disc\":{}",
+            jstr(&ids(id)),
+            jstr(id.discriminant())
+        )
+    }
+
+    fn access_type_json(a: &AccessType<AnyWorkId>) -> String {
+        match a {
+            AccessType::Variant(id) => {
+                format!("{{\"t\":\"V\",\"d\":{}}}", jstr(id.discriminant()))
+            }
+            AccessType::SpecificInstanceOfVariant(id) => {
+                format!("{{\"t\":\"S\",\"id\":{}}}", jstr(&ids(id)))
+            }
+        }
+    }
+
+    pub(super) fn access_json(access: &AnyAccess) -> String {
+        let (k, items) = match access.to_be() {
+            Access::None => ("None", Vec::new()),
+            Access::Unknown => ("Unknown", Vec::new()),
+            Access::All => ("All", Vec::new()),
+            Access::Variant(id) => ("Set", vec![access_type_json(&AccessType::Variant(id))]),
+            Access::SpecificInstanceOfVariant(id) => (
+                "Set",
+                vec![access_type_json(&AccessType::SpecificInstanceOfVariant(id))],
+            ),
+            Access::Set(ids) => {
+                let mut items: Vec<_> = ids.iter().map(access_type_json).collect();
+                items.sort();
+                ("Set", items)
+            }
+        };
+        format!("{{\"k\":\"{k}\",\"items\":[{}]}}", items.join(","))
+    }
+
+    pub(super) fn event(ev: &str, fields: &str) {
+        if enabled() {
+            emit(ev, fields);
+        }
+    }
+
+    pub(super) fn id_event(ev: &str, id: &AnyWorkId) {
+        if enabled() {
+            emit(ev, &id_fields(id));
+        }
+    }
+
+    pub(super) fn insert(job: &Job) {
+        if !enabled() {
+            return;
+        }
+        let kind = match job.work {
+            AnyWork::Fe(..) | AnyWork::Be(..) => "real",
+            AnyWork::Nop(..) => "nop",
+            AnyWork::AlsoComplete(..) => "also",
+        };
+        emit(
+            "Insert",
+            &format!(
+                "{},\"kind\":\"{kind}\",\"read\":{},\"write\":{}",
+                id_fields(&job.id),
+                access_json(&job.read_access),
+                access_json(&job.write_access)
+            ),
+        );
+    }
+
+    pub(super) fn also_completes(id: &AnyWorkId, also: &[AnyWorkId]) {
+        if enabled() && !also.is_empty() {
+            emit(
+                "AlsoCompletes",
+                &format!("{},\"also\":{}", id_fields(id), jarr(also.iter().map(ids))),
+            );
+        }
+    }
+
+    pub(super) fn rewrite(id: &AnyWorkId, read: &AnyAccess) {
+        if enabled() {
+            emit(
+                "Rewrite",
+                &format!("{},\"read\":{}", id_fields(id), access_json(read)),
+            );
+        }
+    }
+
+    pub(super) fn rewrite_of(workload: &Workload, id: &AnyWorkId) {
+        if enabled()
+            && let Some(job) = workload.jobs_pending.get(id)
+        {
+            rewrite(id, &job.read_access);
+        }
+    }
+
+    pub(super) fn launch(id: &AnyWorkId, wave: usize) {
+        if enabled() {
+            emit("Launch", &format!("{},\"wave\":{wave}", id_fields(id)));
+        }
+    }
+
+    pub(super) fn job_start(id: &AnyWorkId) {
+        jitter();
+        if enabled() {
+            set_current_job(Some(ids(id)));
+            emit("JobStart", &id_fields(id));
+        }
+    }
+
+    pub(super) fn fault(id: &AnyWorkId) -> Option<Error> {
+        match fault_for(&ids(id))?.as_str() {
+            "panic" => panic!("verif: injected panic in {id:?}"),
+            _ => Some(Error::Panic(format!("verif: injected failure in {id:?}"))),
+        }
+    }
+
+    pub(super) fn job_end(id: &AnyWorkId, ok: bool) {
+        if enabled() {
+            emit("JobEnd", &format!("{},\"ok\":{ok}", id_fields(id)));
+            set_current_job(None);
+        }
+        jitter();
+    }
+
+    pub(super) fn before_send(id: &AnyWorkId) {
+        if enabled() {
+            emit("Dec", &id_fields(id));
+        }
+        jitter();
+    }
+
+    pub(super) fn recv(id: &AnyWorkId, ok: bool) {
+        if enabled() {
+            emit("Recv", &format!("{},\"ok\":{ok}", id_fields(id)));
+        }
     }
 }
